@@ -13,7 +13,14 @@ import (
 	"time"
 )
 
-const VerifDir = "/verif"
+// VerifDir is where known findings are read and evidence and replay files are written; sweeps
+// run from a committed snapshot point it there (VERIF_DIR) so that they never touch /verif.
+var VerifDir = func() string {
+	if d := os.Getenv("VERIF_DIR"); d != "" {
+		return d
+	}
+	return "/verif"
+}()
 
 type tierSpec struct {
 	BudgetS int
